@@ -799,6 +799,7 @@ class Engine:
         self.witnesses = []
         self.witness_limit = 2
         self._refine_unknown = {}
+        self.cross_check = 0  # number of discharged obligations per task re-decided by cvc5
 
     # -- per-path state
     def _reset_path(self):
@@ -1065,6 +1066,8 @@ class Engine:
             r, model = self._refine(neg, model, oid)
         if r == z3.unsat:
             o["proved"] += 1
+            if self.cross_check and self.stats.get("cross_checked", 0) + self.stats.get("cross_inconclusive", 0) < self.cross_check and o["proved"] <= 2:
+                self._cross_check(neg, oid)
             return True
         if r == z3.sat:
             o["failed"] += 1
@@ -1076,6 +1079,40 @@ class Engine:
         self.unknown.append(("prove", oid))
         self.stats.inc("unknown")
         return None
+
+    def _cross_check(self, neg, oid):
+        """second solver: the discharged query (path condition and negated obligation) is dumped as
+        SMT-LIB2 and decided again by cvc5; `sat` there is a disagreement and makes the run
+        inconclusive, `unknown`/timeout is only counted"""
+        import subprocess
+        import tempfile
+
+        f = z3.Solver()
+        f.add(*self.solver.assertions())
+        f.add(neg)
+        txt = "(set-logic ALL)\n" + f.to_smt2()
+        with tempfile.NamedTemporaryFile("w", suffix=".smt2", delete=False, dir="/var/tmp") as fh:
+            fh.write(txt)
+            path = fh.name
+        try:
+            out = subprocess.run(["cvc5", "--lang", "smt2", "--tlimit=8000", path], capture_output=True, text=True, timeout=20).stdout.strip().splitlines()
+            ans = out[0].strip() if out else "unknown"
+        except Exception:
+            ans = "unknown"
+        finally:
+            try:
+                import os
+
+                os.remove(path)
+            except OSError:
+                pass
+        if ans == "unsat":
+            self.stats.inc("cross_checked")
+        elif ans == "sat":
+            self.stats.inc("cross_disagree")
+            self.errors.append(f"solver disagreement on {oid}: z3 unsat, cvc5 sat")
+        else:
+            self.stats.inc("cross_inconclusive")
 
     def _refine(self, neg, model, oid=None):
         """a counterexample found with uninterpreted products/quotients is re-derived with the
